@@ -18,6 +18,7 @@ THEOREMS = [
     "C06_lookup_uses_current_chain", "C06_lookupAll_uses_current_chain", "C06_subscriptions_uses_current_chain",
     "C06_change_empties_caches_below", "C06_answers_after_change",
     "C06_push_change_empties_caches", "C06_verifying_verify_empties_cache",
+    "C06_generations_strictly_increase",
     "C06_generated_refresh_loop_exits_first_round", "C06_generated_refresh_ro_eq_model",
     "C06_generated_lookup_changed_eq_model", "C06_generated_changed_eq_model",
     "C06_generated_changed_eq_after_bump", "C06_generated_setBases_eq_model",
@@ -239,15 +240,34 @@ def gen_chain_case(rng, fl, rebuild=False):
     # fill: every member registers (most of) the keys
     order = list(range(n))
     rng.shuffle(order)
+    filled = {r: ([], []) for r in range(n)}
     for r in order:
         for k, (req, p, nm) in enumerate(reg_keys):
             if rng.random() < 0.75:
                 ops.append(["register", r, req, p, nm, value(r, k)])
+                filled[r][0].append(k)
         for k, (req, p) in enumerate(sub_keys):
             if rng.random() < 0.75:
                 ops.append(["subscribe", r, req, p, value(r, 5 + k)])
+                filled[r][1].append(k)
     fixed_sweep = sweep(1.0)
     ops += fixed_sweep
+    if rebuild:
+        # generation coincidence: swap one entry of a base for another (the number of entries stays the same),
+        # rebuild() the base, and repeat the sweep with nothing in between.  Were the generation to restart at
+        # rebuild(), it would come back to the value the registries below have in their snapshots.
+        cands = [x for x in range(n) if any(x in bs for bs in dag) and (filled[x][0] or filled[x][1])]
+        for m in rng.sample(cands, min(len(cands), rng.choice([1, 1, 2]))):
+            if filled[m][0] and (not filled[m][1] or rng.random() < 0.75):
+                req, p, nm = reg_keys[rng.choice(filled[m][0])]
+                ops.append(["unregister", m, req, p, nm, None])
+                ops.append(["register", m, req, p, nm, [13, 13]])
+            else:
+                req, p = sub_keys[rng.choice(filled[m][1])]
+                ops.append(["unsubscribe", m, req, p, None])
+                ops.append(["subscribe", m, req, p, [14, 14]])
+            ops.append(["rebuild", m])
+            ops += fixed_sweep if rng.random() < 0.6 else sweep(1.0, regs=[n - 1])
     # rounds
     cur = [list(bs) for bs in dag]
     level = rng.randrange(1, n)
@@ -551,7 +571,7 @@ TECHNIQUE = ("Coq proof by induction over registry histories of a Gallina transc
              "translator on every run (invariants: sub-registry lists mirror __bases__; generation snapshots never run ahead "
              "and a matching snapshot implies a current order; frame, totality and membership lemmas for the C3 "
              "resolver); vm_compute correspondence with both implementations and an independent replay oracle in Coq")
-LEVEL_TEXT = ("Machine-checked theorems (Properties/C06.v, 20 theorems, closed under the global context; 8 of them state "
+LEVEL_TEXT = ("Machine-checked theorems (Properties/C06.v, 21 theorems, closed under the global context; 8 of them state "
               "that the functions regenerated from adapter.py's current text equal the model's for all states): for every "
               "history of registry creation, __bases__ reassignment at any level, registrations and subscriptions in any "
               "member, rebuild() and lookups, over any specification world and any factory behaviour, (push) the cached resolution "
